@@ -1,7 +1,7 @@
 """C07: a pristine-process probe for histories (HISTORIES.md section 1).
 
 `python -m harness.c07_fresh` is a small server that imports the library *and never calls it*; for every request (one
-JSON line: a history {"seq": [{"inp": ...}, ...]} of `match` inputs) it forks, the child runs the calls one after the
+JSON line: a history {"seq": [{"inp": ...}, ...]} of `match` (or `match_matrix`) inputs) it forks, the child runs the calls one after the
 other and writes the canonical outputs, the parent relays them.  Every request therefore runs in a process in which
 no call was made before: whatever the long-lived check process has accumulated (module-level caches, memoised
 attributes, leaked options) is absent.  Used (a) as a purity monitor - the answer to a call must not depend on the
@@ -40,10 +40,11 @@ def _serve():
             os.close(r)
             outs = []
             try:
-                if req.get("op") in ("match_history", "match_interleaved"):
+                if req.get("op") in ("match_history", "match_interleaved", "stub_history"):
                     out = c07.OPS[req["op"]].impl(req["h"])
                     libs = {}
-                    for step in req["h"]["seq"]:       # as the judge of a replay would see the library afterwards
+                    for step in ([] if req["op"] == "stub_history" else req["h"]["seq"]):
+                        # as the judge of a replay would see the library afterwards
                         k = c07._core_key(step["inp"])
                         if k not in libs:
                             try:
@@ -53,7 +54,7 @@ def _serve():
                     data = json.dumps({"out": out, "libs": libs})
                 else:
                     for step in req["h"]["seq"]:
-                        outs.append(c07._observe(step["inp"]))
+                        outs.append(c07._observe_op(req.get("base", "match"), step["inp"]))
                     data = json.dumps({"steps": outs})
             except BaseException as e:  # noqa: BLE001
                 data = json.dumps({"error": repr(e)[:300]})
@@ -88,15 +89,15 @@ class Fresh:
             raise TimeoutError
         return self.proc.stdout.readline().strip()
 
-    def run(self, hist, op="plain", timeout=30):
+    def run(self, hist, op="plain", base="match", timeout=30):
         """the history in a fresh process: with op="plain" every step is a fresh call (canonical outputs of the
-        steps), with op="match_history" / "match_interleaved" that operation itself (reuse / poison honoured; its
+        steps), with op="match_history" / "match_interleaved" / "stub_history" that operation itself (reuse / poison honoured; its
         whole output and the library's matrices as a judge would see them afterwards).
         None when the probe is unavailable."""
         if not self.ok:
             return None
         try:
-            self.proc.stdin.write(json.dumps({"op": op, "h": hist}) + "\n")
+            self.proc.stdin.write(json.dumps({"op": op, "base": base, "h": hist}) + "\n")
             self.proc.stdin.flush()
             ans = json.loads(self._readline(timeout))
             if "error" in ans:
